@@ -56,10 +56,10 @@ CLAIMED.update({
         note='Hypotheses: homogeneous numeric arguments (numeric strings of -?d+(.d+)? or numbers), comparable keys; IEEE rounding outside the model (values recovered as exact rationals).',
         ref='DESIGN.md section 7, C03'),
     'C15': dict(
-        text='C15_prefix_on_broken_pipe: a writer refusing at its k-th write has accepted exactly the first k-1 records of the full output, for every chain shape; C15_writer_protocol (finish once, no write after refusal), '
+        text='C15_run_on_broken_pipe / C15_run_stops_promptly / C15_run_update_on_broken_pipe (at the level of run: no error, exactly the first k-1 records accepted, no write after the refusal, finish once, and for streaming shapes at most the records needed are READ); C15_invalid_utf8_rejected_any_chunking, C15_truncated_utf8_rejected, C15_bad_byte_rejected (a byte-level model of the streaming UTF-8 decoder rbql-js uses, tied to node TextDecoder); C15_prefix_on_broken_pipe: a writer refusing at its k-th write has accepted exactly the first k-1 records of the full output, for every chain shape; C15_writer_protocol (finish once, no write after refusal), '
              'C15_chain_is_one_feed; C15_fds_closed for EVERY fault point of the query_csv resource machine. Real code tied with a recording writer refusing at every k, a stream raising BrokenPipeError at every write, '
-             'an invalid byte at every position x chunk sizes, /proc/self/fd before/after 14 fault scenarios.',
-        note='Partial: OS pipe semantics, TextIOWrapper buffering and the GC are outside the model; the resource machine is a hand abstraction of query_csv tied by the descriptor check; the decode-error-to-IO-error clause is checked on the implementation only.',
+             'an invalid byte at every position x chunk sizes (Python), invalid / truncated UTF-8 x every position x every partition x bulk (rbql-js), /proc/self/fd before/after 14 fault scenarios.',
+        note='Partial: OS pipe semantics, TextIOWrapper buffering and the GC are outside the model; the resource machine is a hand abstraction of query_csv tied by the descriptor check; the Python decode-error-to-IO-error clause is checked on the implementation only (TextIOWrapper decodes); the JS one is modelled (Model/Utf8.lean).',
         ref='DESIGN.md section 7, C15'),
     'C19': dict(
         text='The reference semantics (Lean run) is proved equal to the specification layer for SELECT, aggregates and UPDATE (C19_reference_*); the REAL rbql-js engine is tied to it through a node batch driver on language-neutral '
@@ -79,8 +79,8 @@ CLAIMED.update({
         note='Partial: how an item TEXT is classified into its kind is Python ast / the JS span parser — tied by the correspondence, not modelled. Hypothesis RectangularSources (records as wide as their headers).',
         ref='DESIGN.md section 7, C07'),
     'C08': dict(
-        text='Tier 1: C08_literals_reassemble / C08_literals_roundtrip (literals cut out and put back verbatim for every query without the marker text; counterexample theorem for the marker); tier 2: C08_keyword_case (keyword location depends only on the '
-             'lower-cased text), blank/comment lines, indentation, trailing semicolons, join synonyms; tier 3: C08_clause_order (ANY permutation of the clauses after SELECT/UPDATE parses to the same dictionary of actions and the same error, for all quiet clause bodies, at most one clause per statement group) and C08_clause_actions (the action of a clause depends only on its statement and body). The shallow parser functions (literal scanner = the real regex on ALL strings <= 8-10 over {quote,dquote,backslash,a}, cleanup, redundant table name, '
+        text='Tier 1: C08_literals_extracted + C08_literal_contents_opaque(_for_the_parse) (a well-formed quoted string IS cut out and its contents never reach the rest of the parser: replacing literal contents leaves the format expression and the parse unchanged), C08_literals_reassemble / C08_literals_roundtrip (literals cut out and put back verbatim for every query without the marker text; counterexample theorem for the marker); tier 2: C08_keyword_case (keyword location depends only on the '
+             'lower-cased text), blank/comment lines, indentation, trailing semicolons, join synonyms, C08_on_clause_spelling (= vs ==, spacing, case of on/and), C08_redundant_from_a / C08_redundant_update_a, C08_keyword_case_and_clause_order (case of every keyword through the whole of separate_actions); tier 3: C08_clause_order (ANY permutation of the clauses after SELECT/UPDATE parses to the same dictionary of actions and the same error, for all quiet clause bodies, at most one clause per statement group) and C08_clause_actions (the action of a clause depends only on its statement and body). The shallow parser functions (literal scanner = the real regex on ALL strings <= 8-10 over {quote,dquote,backslash,a}, cleanup, redundant table name, '
              'separate_actions, join expression, whole pipeline) are tied to the Lean Parse model, and respelled queries (case, clause order, layout, synonyms, hostile literal contents) are run through the real engine against the model result of the abstract query.',
         note='Hypothesis of tier 3: no space-separated token of a clause body starts (case-insensitively) with a reserved word (sufficient, not necessary; literals are cut out before this stage). The scanners replacing the regular expressions are tied to Python re, not proved equal to it.',
         ref='DESIGN.md section 7, C08'),
@@ -122,9 +122,9 @@ CLAIMED.update({
         note='C18_readers_agree(_any_chunking): record-level agreement of the two reader machines is proved (hypothesis CommentOK: no LF-after-odd-quotes comment prefix under quoted_rfc). Header derivation from a select list and the shared splitter are tied by the correspondence (one Lean function models both ports).',
         ref='DESIGN.md section 7, C18'),
     'C20': dict(
-        text='Theorems C20_lines_chunk_independent and C20_stream_eq_bulk: for EVERY partition of the decoded text the JS stream reader model processes the lines of the whole text and ends in the '
-             'same state as the bulk reader (records, warnings, error). The real rbql-js reader is tied by running it over ALL byte partitions of every short input, multi-byte samples and 64KiB-crossing files.',
-        note='Trusted: Lean kernel + standard axioms; util.TextDecoder({stream:true}) is a correct incremental decoder (hypothesis GoodPieces; counterexample theorem shows it is needed).',
+        text='BYTE level: C20_stream_eq_bulk_bytes / C20_result_depends_on_bytes_only (byte chunks -> streaming UTF-8 decoder -> stream reader = bulk reader on the decoded text, for every chunking without empty chunks; chunk boundaries inside a multi-byte character are invisible), C20_valid_utf8_never_rejected, C20_decoder_accepts_exactly_utf8 (against core Lean String.utf8EncodeChar), C20_decoded_pieces_are_good (the decoded pieces satisfy GoodPieces). TEXT level: C20_lines_chunk_independent and C20_stream_eq_bulk: for EVERY partition of the decoded text the JS stream reader model processes the lines of the whole text and ends in the '
+             'same state as the bulk reader (records, warnings, error). The real rbql-js reader is tied by running it over ALL byte partitions of every short input, multi-byte samples and 64KiB-crossing files; the decoder model is tied to node's TextDecoder (as rbql_csv.js calls it) on every partition of every byte string of length <= 3 (4) over 27 boundary bytes, and the composed byte-chunk reader on damaged / truncated multi-byte CSV texts.',
+        note='Trusted: Lean kernel + standard axioms. util.TextDecoder is no longer assumed correct but MODELLED (Model/Utf8.lean) and tied; assumption left: a Readable never emits a zero-length chunk (C20_empty_byte_chunk_counterexample shows why).',
         ref='DESIGN.md section 7, C20'),
 })
 
